@@ -390,15 +390,14 @@ def rw_rename(conds, afn, it):
     t = targets(it["f"])
     if t is None:
         return E(it["f"], vals1, it["all"], it["neg"], it.get("ap", ()))
-    if it["f"] is None:       # keyword -> field: substring semantics (f|contains: kw)
-        vals2 = []
-        for v in vals1:
+    if it["f"] is None:       # keyword -> field: substring semantics (f|contains: kw), composed with the modifiers
+        def kw(v):
             if v[0] == "str":
-                vals2.append(["str", v[1], add_wild(v[2])])
-            elif v[0] == "num":
-                vals2.append(["str", False, add_wild(sparse(v[1]))])
-            else:
-                vals2.append(v)
+                return ["str", v[1], add_wild(v[2])]
+            if v[0] == "num":
+                return ["str", False, add_wild(sparse(v[1]))]
+            return v
+        vals2 = [["exp", [kw(x) for x in v[1]]] if v[0] == "exp" else kw(v) for v in vals1]
     else:
         vals2 = vals1
     if t[0] == "one":
@@ -642,6 +641,48 @@ def doc_of(t):
     if "items" in t:
         return ["All" if t["and"] else "Any", [doc_of(x) for x in t["items"]]]
     return ["E", dict(t, ap=sorted(t.get("ap", [])))]
+
+
+def kw_documented_key(key, target):
+    """`'|mods': values` mapped to `target`: substring semantics composed with the modifiers - contains replaces the
+    anchors (startswith / endswith / contains), a regular expression keeps its own matching, the other modifiers
+    (all, cased, neq, ...) stay; None: no documented source form (e.g. value expansions, D28)"""
+    mods = [m for m in key.split("|")[1:] if m]
+    if "re" in mods:
+        return "|".join([target] + mods)
+    if any(m in ("windash", "base64offset", "base64", "expand", "wide", "utf16", "utf16le", "utf16be") for m in mods):
+        return None
+    return "|".join([target, "contains"] + [m for m in mods if m not in ("startswith", "endswith", "contains")])
+
+
+def kw_documented(case):
+    """For a pipeline that starts with an unscoped field_name_mapping of the null key: every keyword entry of the rule,
+    with the documented source-level detection(s) it is rewritten to -> [(detection name, index path, [{key: values}, ...])]"""
+    items = denull(case["pipeline"])["transformations"]
+    if not items or items[0]["type"] != "field_name_mapping" or None not in items[0]["mapping"]:
+        return []
+    it = items[0]
+    if any(k in it for k in ("rule_conditions", "field_name_conditions", "detection_item_conditions")):
+        return []
+    tg = it["mapping"][None]
+    targets = [tg] if isinstance(tg, str) else list(tg)
+    out = []
+    def strs(v):
+        return all(isinstance(x, str) for x in (v if isinstance(v, list) else [v]))
+    for name, d in case["rule"]["detection"].items():
+        if name == "condition":
+            continue
+        if isinstance(d, dict):
+            for pos, (k, v) in enumerate(d.items()):
+                if k.split("|")[0] == "" and strs(v):
+                    keys = [kw_documented_key(k, t) for t in targets]
+                    if None not in keys:
+                        out.append([name, pos, [{kk: v} for kk in keys]])
+        elif isinstance(d, list) and d and all(not isinstance(x, (dict, list)) for x in d) and strs(d):
+            out.append([name, 0, [{t + "|contains": d} for t in targets]])
+        elif isinstance(d, str):
+            out.append([name, 0, [{t + "|contains": d} for t in targets]])
+    return out
 
 
 def rewrite_step(conds, ts, vars_, docs, expr):
@@ -912,6 +953,9 @@ def c_gen_detection(rng):
         d = {}
         for _ in range(rng.choice([1, 1, 2, 2, 3])):
             k, v = c_gen_item(rng)
+            d[k] = v
+        if rng.random() < 0.08:
+            k, v = gen_kw_entry(rng)      # a keyword entry with modifiers next to fielded items
             d[k] = v
         return d
     if r < 0.8:
@@ -1282,6 +1326,69 @@ HASH_VALUES = ["MD5=a1", "SHA1=b2", "MD5=c3", "SHA256=dd", "SHA1=ee", "IMPHASH=z
                "0123456789abcdef0123456789abcdef", "*0123456789abcdef0123456789abcdef01234567*", "sha256=X", "MD5=", "plainword"]
 
 
+KW_MODS = ["|all", "|all", "|cased", "|startswith", "|endswith", "|contains", "|re", "|contains|all", "|cased|all", "|startswith|all",
+           "|endswith|all", "|neq", "|windash", "|re|i", "|contains|cased"]
+KW_STRS = ["kw", "k*w", "two words", "*pre", "post*", "x\"y", "Kw\\\\d", "a?b", "powershell", "enc*command", "-a /b"]
+
+
+def gen_kw_entry(rng):
+    """a keyword entry with modifiers: '|mods': value(s)"""
+    mod = rng.choice(KW_MODS)
+    if "re" in mod:
+        v = rng.choice(["a.*b", "^x$", "(a|b)c"])
+        return mod, (v if rng.random() < 0.6 else [v, "k[0-9]"])
+    n = rng.choice([1, 2, 2, 3]) if "all" not in mod else rng.choice([2, 2, 3])
+    vals = [rng.choice(KW_STRS) for _ in range(n)]
+    if mod in ("|neq",) and rng.random() < 0.2:
+        vals.append(7)
+    return mod, (vals if len(vals) > 1 or rng.random() < 0.5 else vals[0])
+
+
+def gen_kwmap_case(rng):
+    """keyword detections with and without modifiers, next to fielded items, mapped by a null-key field mapping to one
+    or several fields; alone, in chains, under negation"""
+    dets = {}
+    names = rng.sample(NAMES, rng.randint(1, 3))
+    for nm in names:
+        r = rng.random()
+        if r < 0.55:
+            d = {}
+            k, v = gen_kw_entry(rng)
+            d[k] = v
+            for _ in range(rng.choice([0, 0, 1, 2])):
+                kk, vv = c_gen_item(rng)
+                d[kk] = vv
+            if rng.random() < 0.5:
+                d = dict(reversed(list(d.items())))
+            dets[nm] = d if rng.random() < 0.8 else [d, {"g": 1}]
+        elif r < 0.8:
+            dets[nm] = [rng.choice(KW_STRS + [5]) for _ in range(rng.randint(1, 3))]
+        else:
+            dets[nm] = c_gen_detection(rng)
+    expr = gen_expr(rng, names, rng.choice([0, 1, 1, 2]))
+    while not selectors_inhabited(expr, names):
+        expr = gen_expr(rng, names, 1)
+    tg = rng.choice(["msg", "msg", ["msg", "raw"], ["m1", "m2", "m3"], "f"])
+    mapping = {NULLKEY: tg}
+    if rng.random() < 0.3:
+        mapping[rng.choice(C_FIELDS)] = rng.choice(["x", ["x", "y"]])
+    first = {"id": "M", "type": "field_name_mapping", "mapping": mapping}
+    if rng.random() < 0.15:
+        first.update(gen_scope(rng))
+    items = [first]
+    r = rng.random()
+    t0 = tg if isinstance(tg, str) else tg[0]
+    if r < 0.25:
+        items.append(gen_second(rng, {"detection": dets}, {"field_name_conditions": [{"type": "include_fields", "fields": [t0]}]}))
+    elif r < 0.35:
+        items.append(gen_second(rng, {"detection": dets}, {"detection_item_conditions": [{"type": "processing_item_applied", "processing_item_id": "M"}]}))
+    elif r < 0.45:
+        items.insert(0, gen_second(rng, {"detection": dets}, {}))
+    elif r < 0.5:
+        items = [{"type": "nest", "items": items}]
+    return dets, expr, items
+
+
 def gen_hashes_case(rng):
     """Hashes items with several hashes per algorithm in every interleaving, unknown algorithms, contains / all /
     negation, scopes; valid_hash_algos, field_prefix, drop_algo_prefix, field_to_parse variations"""
@@ -1432,7 +1539,8 @@ def gen_extract_case(rng):
     return dets, expr, items
 
 
-SPECIAL_GENERATORS = [gen_hashes_case, gen_hashes_case, gen_hashes_case, gen_regex_case, gen_convertnum_case, gen_queryph_case, gen_extract_case]
+SPECIAL_GENERATORS = [gen_hashes_case, gen_hashes_case, gen_hashes_case, gen_regex_case, gen_convertnum_case, gen_queryph_case, gen_extract_case,
+                      gen_kwmap_case, gen_kwmap_case, gen_kwmap_case]
 
 
 def selectors_inhabited(e, names):
@@ -1465,7 +1573,7 @@ def gen_tr(tier, rng):
             rule[rng.choice(["myattr", "env"])] = rng.choice(["dev", "prod"])       # custom attribute of the rule document
         identity = rng.random() < 0.25
         r = rng.random()
-        if rng.random() < 0.2:
+        if rng.random() < 0.25:
             identity = False
             dets, expr, items = rng.choice(SPECIAL_GENERATORS)(rng)
             rule = {"title": "t", "logsource": dict(rng.choice(LOGSOURCES)), "detection": dict(dets, condition=spell(expr))}
@@ -1551,6 +1659,20 @@ def hostile_cases():
              {"type": "field_name_suffix", "suffix": "_s", "rule_conditions": [{"type": "processing_state", "key": "k", "val": "v"},
                                                                                 {"type": "rule_attribute", "attribute": "env", "value": "prod"}]},
              {"type": "set_value", "value": "Z", "rule_conditions": [{"type": "rule_attribute", "attribute": "env", "value": "prod", "op": "ne"}]}]),
+        # keyword entries with modifiers mapped to a field: substring semantics composed with the modifier
+        mk({"sel": {"EventID": 4688}, "kw_all": {"|all": ["powershell", "enc*command"]}, "kw_any": ["mimikatz", "sekurlsa*"]},
+           ["and", [["id", "sel"], ["or", [["id", "kw_all"], ["id", "kw_any"]]]]],
+           [{"type": "field_name_mapping", "mapping": {NULLKEY: "msg"}}]),
+        mk({"sel": {"EventID": 4688}, "kw_all": {"|all": ["powershell", "enc*command"]}, "kw_any": ["mimikatz", "sekurlsa*"]},
+           ["and", [["id", "sel"], ["or", [["id", "kw_all"], ["id", "kw_any"]]]]],
+           [{"type": "field_name_mapping", "mapping": {NULLKEY: ["msg", "raw"]}}]),
+        mk({"sel": {"|cased": ["Kw", "x*"], "f": 1}, "s2": {"|startswith": "pre", "|endswith|all": ["a", "b"]}, "s3": {"|re": "a.*b"}},
+           ["and", [["id", "sel"], ["not", ["id", "s2"]], ["id", "s3"]]],
+           [{"type": "field_name_mapping", "mapping": {NULLKEY: ["msg", "raw"], "f": "g"}}]),
+        mk({"sel": {"|neq": ["a", "b*"], "|contains|all": ["c", "d"]}}, ["not", sel],
+           [{"id": "M", "type": "field_name_mapping", "mapping": {NULLKEY: "msg"}},
+            {"type": "replace_string", "regex": "^", "replacement": "pre_",
+             "detection_item_conditions": [{"type": "processing_item_applied", "processing_item_id": "M"}]}]),
         # marks survive the copies: A marks f and g, f is mapped one-to-many, C applies where A was applied
         mk({"sel": {"f": "foo", "g": "bar"}}, sel, [{"id": "A", "type": "case", "method": "upper"},
                                                     {"id": "B", "type": "field_name_mapping", "mapping": {"f": ["x", "y"]}},
@@ -1858,6 +1980,9 @@ MAX_ATOMS = 11
 def tr_to_coq(case, r):
     if "exc" in r or "apply_exc" in r or "skip" in r or "q1" not in r or "q2" not in r:
         return None
+    if "unsupported" in r["q1"] or "unsupported" in r["q2"]:
+        r["why_none"] = "backend cannot convert (e.g. value expansion of an unmapped keyword)"
+        return None
     ids = {}
     try:
         q1 = c_query(r["q1"], r["q2"], ids)
@@ -1928,7 +2053,7 @@ def known_tr(case, r):
                         continue
                     afn = make_afn(ts)
                     if afn is not None and it["f"] is None and fm(conds, None) and afn(None) is not None \
-                            and any(v[0] == "num" for v in it["vs"]):
+                            and any(v[0] in ("num", "exp") for v in it["vs"]):
                         return "D28-keyword-number-mapped-to-field-exact-match"
                     if ts[0] == "extract" and it["neg"] and rw_extract(ts, it)[1]:
                         return "D34-extract-fields-drops-negation"
@@ -1939,6 +2064,16 @@ def known_tr(case, r):
                             if v[0] == "str" and re.sub(ts[1], ts[2], plain_of(v[2])) == plain_of(v[2]) and bs_before_wildcard(v[2]):
                                 return "D10-replace-string-noop-backslash-before-wildcard"
         docs, expr = rewrite_step(conds, ts, vars_, docs, expr)
+    return None
+
+
+def py_oracle(case, r):
+    """keyword entries mapped to a field: the rewrite of the specification is what the documented source-level
+    entry (f|contains|<modifiers>: values) loads to, and what the implementation made of the keyword entry"""
+    for x in r.get("kwdoc", []):
+        if not x["ok"]:
+            return "keyword entry %s of %s: documented form %s loads to %s, the pipeline produced %s" % (
+                x["pos"], x["name"], json.dumps(x["doc"]), json.dumps(x["loaded"])[:300], json.dumps(x["got"])[:300])
     return None
 
 
@@ -1971,7 +2106,7 @@ def mutate(case, rng):
 REQ = ["Base.Chars", "Model.SString", "Model.Backend", "Spec.Target", "Model.Transform", "Spec.Rewrite", "Run.C12run"]
 PROPERTY = Property(
     pid="C12", props_file="Props/C12.v",
-    suites=[Suite("tr", gen_tr, "run_tr", REQ, "judge_tr", tr_to_coq, known=known_tr, mutate=mutate, stratum=stratum, shard=100)],
+    suites=[Suite("tr", gen_tr, "run_tr", REQ, "judge_tr", tr_to_coq, known=known_tr, mutate=mutate, stratum=stratum, py_oracle=py_oracle, shard=100)],
     rule="random rules (1-3 detections: maps, lists of maps, keyword lists; modifiers contains/startswith/endswith/all/cased/re/cidr/exists/"
          "windash/gt/fieldref/neq/expand/base64; one condition of depth <= 2 with and/or/not/selectors; optional fields list) x pipelines "
          "written as YAML documents: one transformation, chains of two, nested pipelines; field_name_mapping (1:1, 1:n, keyword), "
